@@ -78,3 +78,4 @@ Fixpoint crun (cv : cvariant) (x : cworld) (tr : list caction) : option cworld :
 Definition init_cworld (c0 : cell) (nodes : server -> node) : cworld := mkCW (init_world c0 nodes) None.
 
 Definition cstore_atomic (tr : list caction) : Prop := ~ In (CBase ACoordStoreTruncate) tr.
+Definition cstore_sound (tr : list caction) : Prop := cstore_atomic tr /\ ~ In (CBase ACoordStoreGiveUp) tr.
